@@ -71,6 +71,8 @@ enum State {
     /// We have some index hunks from a band and can return them gradually.
     InBand {
         band_id: BandId,
+        /// The open band, to check its tail once its hunks have been read.
+        band: Band,
         /// Temporarily buffered entries, read from the index files but not yet
         /// returned to the client. If this is empty, it's time to read the next
         /// hunk, or try the next band, or just the end.
@@ -140,6 +142,7 @@ impl Stitch {
                 State::Done => return None,
                 State::InBand {
                     band_id,
+                    band,
                     index_hunks,
                     buffered_entries,
                 } => {
@@ -161,6 +164,21 @@ impl Stitch {
                         *buffered_entries = hunk.into_iter().peekable();
                         continue;
                     } else {
+                        // All the hunks that are present have been read. If the band has a
+                        // tail, it says how many there should be: say so if some are
+                        // missing from the end, rather than presenting a truncated tree.
+                        if let Ok(info) = band.get_info().await {
+                            if let Some(expected) = info.index_hunk_count {
+                                let present = u64::from(index_hunks.hunks_accounted_for());
+                                if present < expected {
+                                    self.monitor.error(Error::InvalidMetadata {
+                                        details: format!(
+                                            "Band {band_id} should have {expected} index hunks but only {present} are present"
+                                        ),
+                                    });
+                                }
+                            }
+                        }
                         State::AfterBand(*band_id)
                     }
                 }
@@ -168,12 +186,15 @@ impl Stitch {
                     // Start reading this new index and skip forward until after last_apath
                     match Band::open(&self.archive, *band_id).await {
                         Ok(band) => match band.index().try_iter_available_hunks().await {
-                            Ok(mut index_hunks) => {
+                            Ok(index_hunks) => {
+                                let mut index_hunks =
+                                    index_hunks.with_monitor(self.monitor.clone());
                                 if let Some(last) = &self.last_apath {
                                     index_hunks = index_hunks.advance_to_after(last)
                                 }
                                 State::InBand {
                                     band_id: *band_id,
+                                    band,
                                     index_hunks,
                                     buffered_entries: Vec::new().into_iter().peekable(),
                                 }
